@@ -694,3 +694,66 @@ func genStress(rng *hx.Rng, scale int) [][]string {
 
 	return cases
 }
+
+// execMN: forced interleavings of the trigger counters: the callback of hook ri triggers the event again while the
+// outer Trigger stands in the middle of its iteration (nesting depth = the argument).  Deterministic; the Lean driver
+// runs the same schedule on the protocol model of C15_max_trigger_count_hooks and must print the same counts.
+//
+//	mn <n> <ri> <depth> <m0> <m1> ...   ->  <TriggerCount> <fired0> <fired1> ...
+func (w *world) execMN(f []string) string {
+	p, ok := atoiAll(f)
+	if !ok || len(p) < 4 || len(p) > 15 || p[1] >= len(p)-3 || p[2] > 8 {
+		return "bad-op"
+	}
+	n, ri, depth, lims := p[0], p[1], p[2], p[3:]
+	var opts []event.Option
+	if n > 0 {
+		opts = append(opts, event.WithMaxTriggerCount(uint64(n)))
+	}
+	e := event.New1[int](opts...)
+	counts := make([]int, len(lims))
+	for i, m := range lims {
+		i := i
+		var ho []event.Option
+		if m > 0 {
+			ho = append(ho, event.WithMaxTriggerCount(uint64(m)))
+		}
+		e.Hook(func(arg int) {
+			counts[i]++
+			if i == ri && arg > 0 {
+				e.Trigger(arg - 1)
+			}
+		}, ho...)
+	}
+	e.Trigger(depth)
+	total := depth + 1 // an upper bound of the Trigger calls; the oracle below only uses monotone facts
+	out := []string{strconv.Itoa(e.TriggerCount())}
+	for i, m := range lims {
+		out = append(out, strconv.Itoa(counts[i]))
+		if m > 0 && counts[i] > m {
+			w.fail("max-trigger-count", fmt.Sprintf("nested triggers: hook %d with limit %d fired %d times", i, m, counts[i]),
+				map[string]string{"oracle": "fired-min", "api": "event.WithMaxTriggerCount", "mode": "nested-trigger"})
+		}
+		if counts[i] > minLim(n, total) {
+			w.fail("max-trigger-count", fmt.Sprintf("nested triggers: hook %d fired %d times although the event (limit %d) was triggered at most %d times", i, counts[i], n, total),
+				map[string]string{"oracle": "fired-min", "api": "event.WithMaxTriggerCount", "mode": "nested-trigger"})
+		}
+	}
+	w.res.nontrivial = depth > 0
+
+	return strings.Join(out, " ")
+}
+
+func genMN(rng *hx.Rng) []string {
+	var ops []string
+	for i := 0; i < 12; i++ {
+		nh := 1 + rng.Intn(4)
+		lims := make([]string, nh)
+		for j := range lims {
+			lims[j] = strconv.Itoa(hx.Pick(rng, []int{0, 0, 1, 2, 3}))
+		}
+		ops = append(ops, fmt.Sprintf("mn %d %d %d %s", hx.Pick(rng, []int{0, 0, 1, 2, 4}), rng.Intn(nh), rng.Intn(6), strings.Join(lims, " ")))
+	}
+
+	return ops
+}
